@@ -181,12 +181,16 @@ Definition ta_reserve (t : tree) (s : st) (cid : nat) (g : grant) : res st :=
       let s1 := account_alloc t s p (g_excl g) in
       Ok (set_grants (add_shared s1 p (g_portion g)) (<[cid := g]> (grants s1)))
   | CpuReserved =>
+    (* reserved and preserve grants never carry exclusive CPUs (AllocateCPU turns them into
+       fractions); the code does not re-check this on Reserve, the model refuses it *)
+    if negb (bool_decide (g_excl g = ∅)) then Err (ErrGuard 8) else
     let sp := 1000 * csize (g_excl g) + g_portion g in
     if (0 <? sp) && (alloc_reserved t s p <? sp) then Err ErrNoCapacity
     else
       let s1 := account_alloc t s p (g_excl g) in
       Ok (set_grants (add_reserved s1 p sp) (<[cid := g]> (grants s1)))
   | CpuPreserve =>
+    if negb (bool_decide (g_excl g = ∅)) then Err (ErrGuard 8) else
     let s1 := account_alloc t s p (g_excl g) in
     Ok (set_grants s1 (<[cid := g]> (grants s1)))
   end.
@@ -298,7 +302,10 @@ Definition excl_union (s : st) : cset :=
 (* tree well-formedness used by the theorems: unrelated pools have disjoint CPU sets *)
 Definition tree_wfb (t : tree) : bool :=
   forallb (fun p => forallb (fun q => related t p q || bool_decide (p_cpus (pool_at t p) ## p_cpus (pool_at t q))) (pools t)) (pools t)
-  && forallb (fun p => bool_decide (p_iso (pool_at t p) ## p_shar (pool_at t p))) (pools t).
+  && forallb (fun p => bool_decide (p_iso (pool_at t p) ## p_shar (pool_at t p))) (pools t)
+  (* reserved CPUs are never sharable or isolated anywhere (configurations whose reserved
+     cpuset is kernel-isolated are outside the properties' domain) *)
+  && forallb (fun p => forallb (fun q => bool_decide (p_res (pool_at t p) ## p_iso (pool_at t q) ∪ p_shar (pool_at t q))) (pools t)) (pools t).
 
 (* C03 capacity clause on a state: every pool keeps 1000 mCPU per remaining shared CPU for its subtree *)
 Definition capacity_okb (t : tree) (s : st) : bool :=
